@@ -41,6 +41,14 @@ PAYLOADS = {
     "long_token_backslashes": "s" * 79 + "\\" * 40, "long_token_quotes": "t" * 84 + '"""' * 10,
 }
 
+# character classes an escaping routine may treat by separate rules: every unordered pair is placed in one string, because
+# a rule chosen for one class (e.g. "contains a line separator -> use another encoder") can mistreat the other
+CLASSES = {"dq": '"', "bs": "\\", "nl": "\n", "cr": "\r", "nul": "\x00", "lsep": "\u2028", "psep": "\u2029", "nel": "\x85",
+           "astral": "\U0001f600", "bmp": "\u65e5", "tab": "\t", "c1": "\x9b", "sq": "'", "brace": "{"}
+PAIRS = {f"pair_{a}_{b}": f"a{ca}b{cb}c" for (a, ca), (b, cb) in __import__("itertools").combinations(CLASSES.items(), 2)}
+PAIR_POSITIONS = ["enum_value", "property_name", "param_name_query", "string_default", "discriminator_value", "property_description",
+                  "operation_summary"]
+
 # positions whose text must come back as an exact string constant somewhere in the emitted package
 MEANING = {"enum_value", "property_name", "param_name_query", "param_name_header", "string_default", "discriminator_value"}
 
@@ -183,7 +191,7 @@ def site_of(rel: str) -> str:
 
 
 def pclass(name: str) -> str:
-    return name if name in PAYLOADS else "random"
+    return name if name in PAYLOADS or name in PAIRS else "random"
 
 
 def run_cell(ctx: Ctx, position: str, pname: str, text: str, baseline: dict) -> None:
@@ -240,7 +248,7 @@ def run_shard(ctx: Ctx) -> None:
             return
         sk, co, er, _ = analyse(root, "pk")
         baseline[pos] = {"skel": sk}
-    cells = [(p, n, t) for p in POSITIONS for n, t in PAYLOADS.items()]
+    cells = [(p, n, t) for p in POSITIONS for n, t in PAYLOADS.items()] + [(p, n, t) for p in PAIR_POSITIONS for n, t in PAIRS.items()]
     for i, (p, n, t) in enumerate(cells):
         if ctx.mine(i):
             run_cell(ctx, p, n, t, baseline)
